@@ -794,6 +794,8 @@ def _is_arith(e):
 # printer
 
 def show(e):
+    if e is None:
+        return "<absent>"
     k = e[0]
     if k == 'const':
         return repr(e[1])
